@@ -504,7 +504,13 @@ fn run_case<H: HK>(case: &C20Case, scratch: &Scratch) -> Result<CaseInfo, Violat
             let after = dir_stamp(&dir).map_err(|m| viol(step, m))?;
             if after != b {
                 let what = if after.0 != b.0 { "file contents" } else { "file lengths / modification times" };
-                return Err(viol(step, format!("a refused open modified the directory ({what} differ before / after {} refused attempts)", it + ip)));
+                return Err(viol(
+                    step,
+                    format!(
+                        "the directory changed while its holder was idle and {} open attempts were refused ({what} differ before / after): a refused open modified it, or a background writer of the holder was still active after its last commit had returned",
+                        it + ip
+                    ),
+                ));
             }
             info.bump("refused_opens_left_directory_untouched");
         }
